@@ -112,7 +112,27 @@ func (l *leaseRun) restartFS(what string, files map[string][]byte) (map[binding]
 	simrt.NetCtl(simrt.NetCtlReopen, 0)
 	simrt.Trace("C18 restart " + what)
 	l.restarts++
-	w2, err := world.New(l.sc.Cfg)
+	// every other restart the application re-applies its capture list before the handlers are
+	// created, as it would at boot: the leases are then loaded for MACs that are already captured
+	var pre func(*world.World)
+	if l.restarts%2 == 1 {
+		macs := make([]fb.MAC, 0, len(l.d.capturedOp))
+		for m, c := range l.d.capturedOp {
+			if c {
+				macs = append(macs, m)
+			}
+		}
+		sort.Slice(macs, func(i, j int) bool { return string(macs[i][:]) < string(macs[j][:]) })
+		pre = func(w *world.World) {
+			for _, m := range macs {
+				w.S.Capture(world.HW(m))
+			}
+		}
+		if len(macs) > 0 {
+			l.probe("restart_with_captured_macs")
+		}
+	}
+	w2, err := world.NewWith(l.sc.Cfg, pre)
 	if err != nil {
 		l.violate("C18.construct", "constructor-error", fmt.Sprintf("restart (%s): %v", what, err))
 		return nil, nil
